@@ -23,7 +23,7 @@ def reference_tables(script, n):
         elif op == 'restrict':
             v = st['var']; src = tabs[st['a']]
             t = [src[(a | (1 << v)) if st['val'] else (a & ~(1 << v))] for a in range(1 << n)] if v < n else list(src)
-        elif op == 'reimport': t = [0] * (1 << n)      # the step's own result is the bottom handle
+        elif op in ('reimport', 'serde_reimport'): t = [0] * (1 << n)      # the step's own result is the bottom handle
         else: raise ValueError(op)
         tabs.append(t)
     return tabs
@@ -44,6 +44,7 @@ def native_problems(out, script, n):
         for j in range(i):
             if ref[i] is None or ref[j] is None: continue
             if (hs[i] == hs[j]) != (ref[i] == ref[j]): probs.append('handles of steps %d,%d: equality of handles != equality of functions' % (j, i))
+    if out.get('renode_problem'): probs.append(out['renode_problem'])
     nodes = [(int(v), lo, hi) for v, lo, hi in out['nodes']]
     seen = {}
     for i, (v, lo, hi) in enumerate(nodes):
@@ -74,7 +75,7 @@ def random_script(rng, n, nops):
     for _ in range(rng.randint(2, 3)):
         script.append({'op': 'shannon', 'bits': [rng.randint(0, 1) for _ in range(1 << n)]})
     for _ in range(nops):
-        op = rng.choice(['not', 'and', 'or', 'imp', 'iff', 'xor', 'restrict', 'restrict', 'variable', 'constant', 'reimport'])
+        op = rng.choice(['not', 'and', 'or', 'imp', 'iff', 'xor', 'restrict', 'restrict', 'variable', 'constant', 'reimport', 'serde_reimport'])
         st = {'op': op}
         if op in ('not', 'restrict') or op in PYBIN: st['a'] = rng.randrange(len(script))
         if op in PYBIN: st['b'] = rng.randrange(len(script))
